@@ -20,6 +20,7 @@ regenerated obligation `gen_cfg_ok`; for the pinned tree they are false and the
 concrete witnesses below are theorems.
 -/
 import PubModel.C07.PrintSurface
+import PubModel.C07.LemmasRender4
 import PubModel.C07.Demo
 
 namespace PubModel.C07
@@ -109,23 +110,12 @@ theorem unmarshal_render (r : RV) (j : JV (Num φ)) (hv : r.val L = some j) (hw 
 
 /-! ### (3) the printer is one surface -/
 
-/-- **marshal_unmarshal** (token level).  For every value `v` whose number leaves are
-    RFC 8259 literals, `Unmarshal` applied to the token stream of `Marshal(v)`
-    succeeds and hands to `encoding/json` the canonical JSON text of `j`, where `j`
-    is the standard reading of `v` (keys in `sort.Strings` order): integers exactly,
-    fractions/exponents as the float64 `strconv.ParseFloat` reads, strings and keys
-    unchanged.
-
-    Partial: the statement is about `printToks`, the token stream of the printed
-    text.  The missing step is the character-level
-      `lex_render : tokens cfg (marshal cfg L v) = plain (printToks cfg.keywords L v)`
-    (maximal munch over the printer's layout: four-space indentation, `": "`, `",\n"`).
-    Its number and identifier cases are `number_literal_accepted` and
-    `lexIdent_accepts`; the string case needs the shape contract of `strconv.Quote`
-    (`isQuoteShape`, validated by the harness).  Until it is proved the step is
-    covered by the correspondence run: the harness compares `tokens`-then-parse of
-    the model with the real `Unmarshal` on the real `Marshal` output of every
-    generated value. -/
+/-- **marshal_unmarshal, token level** (kept as a corollary name; see `marshal_unmarshal`
+    below for the statement on the printed characters).  For every value `v` whose number
+    leaves are RFC 8259 literals, `Unmarshal` applied to the token stream of `Marshal(v)`
+    succeeds and hands to `encoding/json` the canonical JSON text of `j`, where `j` is the
+    standard reading of `v` (keys in `sort.Strings` order): integers exactly,
+    fractions/exponents as the float64 `strconv.ParseFloat` reads, strings and keys unchanged. -/
 theorem marshal_unmarshal_partial (hL : RoundTripLeaf L) (v : JV Chars) (hn : NumsOK (JV.canon v)) :
     ∃ j, readJ L (JV.canon v) = some j ∧
       unmarshalToks cfg L (plain (printToks cfg.keywords L v)) = .ok (emit L j) := by
@@ -138,6 +128,31 @@ theorem marshal_unmarshal_partial (hL : RoundTripLeaf L) (v : JV Chars) (hn : Nu
       rw [printRV_val cfg.keywords L hL _ hn, hj]
     exact unmarshal_render cfg hcfg L _ j hval (printRV_WF cfg.keywords L _) _ (.semiEof _)
 
+/-- **lex_render** (the printer's surface): lexing, semicolon insertion, keywording and
+    comment removal of the text `Marshal` writes give exactly `printToks` — maximal munch
+    over the printer's layout (four-space indentation, `": "`, `",\n"`, the final newline),
+    numbers by `number_literal_accepted`, bare keys by `lexIdent_accepts`, strings and quoted
+    keys by `lexString_quote` from the shape contract of `strconv.Quote` (`isQuoteShape`:
+    `"`, then runes other than `"`, `\`, newline or the escapes `\a \b \f \n \r \t \v \\ \"
+    \xHH \uHHHH \UHHHHHHHH` with a valid code point, then `"`; every other rune — U+FEFF,
+    U+2028, DEL, … — may stand for itself). -/
+theorem lex_render (hq : ∀ s, isQuoteShape (L.quote s) = true) (v : JV Chars) (hn : NumsOK (JV.canon v)) :
+    tokens cfg (marshal cfg L v) = plain (printToks cfg.keywords L v) :=
+  tokens_marshal cfg hcfg L hq v hn
+
+/-- **marshal_unmarshal**: for every value `v` whose number leaves are RFC 8259 literals
+    (what `json.Marshal` wrote), `Unmarshal(Marshal(v))` succeeds and hands to
+    `encoding/json` the canonical JSON text of the standard reading `j` of `v`: integers
+    exactly (64-bit and beyond), fractions/exponents as the float64 `strconv.ParseFloat`
+    reads, strings and keys unchanged, keys in `sort.Strings` order, every nesting.
+    Contracts of the delegated leaves: `RoundTripLeaf` (Unquote∘Quote = id, ParseFloat
+    accepts RFC numbers) and the shape of `strconv.Quote` output. -/
+theorem marshal_unmarshal (hL : RoundTripLeaf L) (hq : ∀ s, isQuoteShape (L.quote s) = true)
+    (v : JV Chars) (hn : NumsOK (JV.canon v)) :
+    ∃ j, readJ L (JV.canon v) = some j ∧ unmarshal cfg L (marshal cfg L v) = .ok (emit L j) := by
+  obtain ⟨j, h1, h2⟩ := marshal_unmarshal_partial cfg hcfg L hL v hn
+  exact ⟨j, h1, by rw [unmarshal, tokens_marshal cfg hcfg L hq v hn]; exact h2⟩
+
 end
 
 /-! ### non-vacuity and concrete instances -/
@@ -149,6 +164,65 @@ theorem demoLeaf_roundTrip : RoundTripLeaf demoLeaf where
   parseFloat_json lit h := by simp [demoLeaf, h]
 
 theorem fixedCfg_ok : CfgOK fixedCfg := by decide
+
+/-! a leaf instance that satisfies every contract of the round trip at once: every byte is
+    quoted as `\xHH` -/
+
+def hexQuoteBody : Bytes → Chars
+  | [] => ['"']
+  | b :: r => '\\' :: 'x' :: Hex.digit (b.toNat / 16) :: Hex.digit (b.toNat % 16) :: hexQuoteBody r
+
+def hexUnquoteBody : Chars → Option Bytes
+  | [] => none
+  | c :: r =>
+    if c = '"' then (if r = [] then some [] else none)
+    else
+      match r with
+      | _ :: a :: b :: r' => (hexUnquoteBody r').map fun bs => UInt8.ofNat (digitVal a * 16 + digitVal b) :: bs
+      | _ => none
+
+def hexLeaf : Leaf Chars where
+  unquote lit := hexUnquoteBody (lit.drop 1)
+  quote bs := '"' :: hexQuoteBody bs
+  jsonStr bs := '"' :: (bytesChars bs ++ ['"'])
+  parseFloat lit := if isJsonUNum lit then some lit else none
+  jsonFloat lit := lit
+  fmtFloat _ neg lit := if neg then '-' :: lit else lit
+
+theorem hexDigit_ok : ∀ n, n < 16 → digitVal (Hex.digit n) = n ∧ isHexDigit (Hex.digit n) = true ∧
+    Hex.digit n ≠ '"' := by decide
+
+theorem hexLeaf_roundTrip : RoundTripLeaf hexLeaf where
+  unquote_quote s := by
+    show hexUnquoteBody (hexQuoteBody s) = some s
+    induction s with
+    | nil => simp [hexQuoteBody, hexUnquoteBody]
+    | cons b r ih =>
+      have hb : b.toNat < 256 := b.toNat_lt
+      have h1 := (hexDigit_ok (b.toNat / 16) (by omega)).1
+      have h2 := (hexDigit_ok (b.toNat % 16) (by omega)).1
+      have hne : ¬ ('\\' = '"') := by decide
+      have hbyte : UInt8.ofNat (b.toNat / 16 * 16 + b.toNat % 16) = b := by
+        rw [Nat.div_add_mod']; simp
+      simp [hexQuoteBody, hexUnquoteBody, hne, ih, h1, h2, hbyte]
+  parseFloat_json lit h := by simp [hexLeaf, h]
+
+theorem hexLeaf_quoteShape : ∀ s, isQuoteShape (hexLeaf.quote s) = true := by
+  intro s
+  show isQuoteShape ('"' :: hexQuoteBody s) = true
+  simp only [isQuoteShape, decide_true, Bool.true_and, decide_eq_true_eq]
+  induction s with
+  | nil => simp [hexQuoteBody, scanQuoteBody]
+  | cons b r ih =>
+    have hb : b.toNat < 256 := b.toNat_lt
+    have h1 := (hexDigit_ok (b.toNat / 16) (by omega)).2.1
+    have h2 := (hexDigit_ok (b.toNat % 16) (by omega)).2.1
+    have hx : ¬ ('x' ∈ simpleEscapes) := by decide
+    have hne : ¬ ('\\' = '"') ∧ ¬ ('\\' = '\n') := by decide
+    unfold scanQuoteBody hexQuoteBody
+    simp [hne.1, hne.2, hx, h1, h2, ih]
+
+
 
 /-- a surface tree using every extension at once: `{a: -0x10, "b": [+1.5e+3, 007,], c: x.y}` -/
 def demoTree : RV :=
@@ -169,7 +243,7 @@ def demoValue : JV Chars :=
     (.cons (identBytes (str "id")) (.num false (str "9223372036854775807"))
       (.cons (identBytes (str "null")) (.str (identBytes (str "x"))) .nil)))
 
-example : NumsOK (JV.canon demoValue) := by
+theorem demoValue_numsOK : NumsOK (JV.canon demoValue) := by
   have h : JV.canon demoValue =
       .obj (.cons (identBytes (str "id")) (.num false (str "9223372036854775807"))
         (.cons (identBytes (str "null")) (.str (identBytes (str "x")))
@@ -188,6 +262,13 @@ example : unmarshal fixedCfg demoLeaf (marshal fixedCfg demoLeaf demoValue) =
 set_option maxRecDepth 8000 in
 example : tokens fixedCfg (marshal fixedCfg demoLeaf demoValue) =
     plain (printToks fixedCfg.keywords demoLeaf demoValue) := by decide
+
+/-- the hypotheses of `marshal_unmarshal` are jointly satisfiable, and the theorem applies
+    to a value with a key that needs quoting, a negative fraction, an exponent and a
+    64-bit integer -/
+example : ∃ j, readJ hexLeaf (JV.canon demoValue) = some j ∧
+    unmarshal fixedCfg hexLeaf (marshal fixedCfg hexLeaf demoValue) = .ok (emit hexLeaf j) :=
+  marshal_unmarshal fixedCfg fixedCfg_ok hexLeaf hexLeaf_roundTrip hexLeaf_quoteShape demoValue demoValue_numsOK
 
 /-! ### the pinned tree violates the property: concrete witnesses -/
 
